@@ -100,6 +100,16 @@ func (e *senum) lite(size int, depth int) Fam {
 			fi := fi
 			parts = append(parts, MapFam(e.liteBlocks(inner, depth+1), func(b any) any { return fi(rt.Block(asNodes(b)...)) }))
 		}
+		if inner >= 1 {
+			// the statements in an else branch: one that is not taken (what it contains must not leak into
+			// the rest of the script, at load time either) and one that is
+			parts = append(parts, MapFam(e.liteBlocks(inner, depth+1), func(b any) any {
+				return rt.If(rt.Bool(true), rt.Block(), rt.Block(asNodes(b)...))
+			}))
+			parts = append(parts, MapFam(e.liteBlocks(inner, depth+1), func(b any) any {
+				return rt.If(rt.Bool(false), rt.Block(), rt.Block(asNodes(b)...))
+			}))
+		}
 	}
 	return Sum(parts...)
 }
@@ -361,7 +371,7 @@ func init() {
 	run.Register(&run.Check{
 		ID:    "C13",
 		Level: "model_checking",
-		Rule: "scripts a.p (uses b.p, c.p), b.p (uses c.p), c.p: every body of total size <=3 / <=2 / <=1 statements (thorough 3/3/2) over {x=K, p(K,x,k), add_key(k,x), exit(), raise, use(child)} each optionally inside `if true {}` / `for i in [1,2] {}`, " +
+		Rule: "scripts a.p (uses b.p, c.p), b.p (uses c.p), c.p: every body of total size <=3 / <=2 / <=1 statements (thorough 3/3/2) over {x=K, p(K,x,k), add_key(k,x), exit(), raise, use(child)} each optionally inside `if true {}` / `for i in [1,2] {}` / the else branch of `if true {} else {}` (not taken) / of `if false {} else {}` (taken), " +
 			"same variable and key names on every side, followed by a final probe; all reachable combinations; plus exit()/raise in each clause of a three-clause for, directly and through use(); " +
 			"oracle: probe trace, final point, error flag equal the reference (fresh scope per callee, shared point, exit local); on errors the position chain = failing statement, then every use site outward",
 		Assumptions: []string{"bodies of scripts that are not reachable are replaced by a trivial body (they cannot influence the run)"},
